@@ -757,6 +757,25 @@ pub fn run(tier: Tier) -> i32 {
                     let r = vsh::run_once(&setup, &Default::default());
                     read_evals.fetch_add(1, Relaxed);
                     let want = format!("args{}", exp.iter().map(|f| format!("[{f}]")).collect::<String>());
+                    // the same line as the last one of an input that does not end in a newline, read into
+                    // variables that still hold values from before: the variables get the same fields (an
+                    // empty input: empty values), the exit status says "end of input"
+                    if !line.ends_with('\\') {
+                        let pre: String = names[..nvars].iter().map(|n| format!("{n}=old ")).collect();
+                        let script2 = format!("{}{pre}\nread {}{}\nargs $? {}\n", match ifs { Some(i) => format!("IFS={}\n", shell_quote_for_script(i)), None => String::new() }, if raw { "-r " } else { "" }, names[..nvars].join(" "), names[..nvars].iter().map(|n| format!("\"${n}\"")).collect::<Vec<_>>().join(" "));
+                        let mut setup2 = Setup::script(&script2);
+                        setup2.stdin = Some(line.clone().into_bytes());
+                        let r2 = vsh::run_once(&setup2, &Default::default());
+                        read_evals.fetch_add(1, Relaxed);
+                        let want2 = format!("args[1]{}", exp.iter().map(|f| format!("[{f}]")).collect::<String>());
+                        if r2.all_trace() != vec![want2.clone()] {
+                            ctx.violation(
+                                "c01:read-at-end-of-input",
+                                &format!("read of {line:?} without a final newline (IFS={ifs:?}, {nvars} vars, raw={raw}) into variables holding `old` gave {:?}, expected {want2}", r2.all_trace()),
+                                json!({"script": script2, "stdin": line}),
+                            );
+                        }
+                    }
                     if r.all_trace() != vec![want.clone()] {
                         let key = if line.ends_with("\\ ") || line.contains("\\ ") || line.contains("\\:") { "c01:read-escaped" } else { "c01:read" };
                         ctx.violation(
